@@ -1158,6 +1158,37 @@ func TestScaling(t *testing.T) {
 				stringProp.One(t, Case{Target: "policy.FromDagJson", Fam: "scaling-" + kind, Str: string(js)})
 			}
 		}
+		// a value nested n deep in EACH slot of an otherwise well-formed statement (operator, selector, pattern /
+		// literal / sub-statement), as nested lists and as nested maps: rejected or accepted, the cost stays linear
+		// (an error path that renders the offending value pays for its depth a second time)
+		if n <= 8000 || h.Thorough() {
+			deepList := append(bytes.Repeat([]byte{0x81}, n), 0x00)
+			deepMap := append(bytes.Repeat([]byte{0xa1, 0x61, 'k'}, n), 0x00)
+			txt := func(s string) *cbor.Item { return cbor.Text(s) }
+			for di, deep := range [][]byte{deepList, deepMap} {
+				dv := &cbor.Item{Raw: deep}
+				stmts := map[string][]*cbor.Item{
+					"op-slot":       {dv, txt(".a"), cbor.Uint(1)},
+					"op-slot-2":     {dv, txt(".a")},
+					"selector-slot": {txt("=="), dv, cbor.Uint(1)},
+					"like-selector": {txt("like"), dv, txt("a*")},
+					"like-pattern":  {txt("like"), txt(".a"), dv},
+					"all-selector":  {txt("all"), dv, {Major: 4, Items: []*cbor.Item{txt("=="), txt("."), cbor.Uint(1)}}},
+					"all-sub":       {txt("all"), txt(".a"), dv},
+					"not-sub":       {txt("not"), dv},
+					"and-sub":       {txt("and"), dv},
+					"literal":       {txt("=="), txt(".a"), dv},
+				}
+				for name, items := range stmts {
+					st := &cbor.Item{Major: 4, Items: items}
+					pb := (&cbor.Item{Major: 4, Items: []*cbor.Item{st}}).Bytes()
+					fam := fmt.Sprintf("scaling-deep-in-%s-%d", name, di)
+					sealed := signedRawPol(pb)
+					signedProp.One(t, Case{Target: "token.FromSealed", Fam: fam, Bytes: sealed})
+					signedProp.One(t, Case{Target: "delegation.FromSealed", Fam: fam, Bytes: sealed})
+				}
+			}
+		}
 		// wide: n statements, n args, n-element lists
 		wide := val.V{K: "list"}
 		for i := 0; i < n; i++ {
